@@ -3,7 +3,7 @@
    Executable Gallina only. *)
 From Coq Require Import ZArith List Bool.
 Import ListNotations.
-From MemSafe Require Import Model Gen_Used Gen_Helpers ModelMem ModelWrites ModelDiv Spec.
+From MemSafe Require Import Model Gen_Used Gen_Helpers ModelMem ModelWrites ModelDiv Spec ModelExec.
 Open Scope Z_scope.
 
 Definition err_code (e : err) : Z :=
@@ -44,6 +44,9 @@ Definition const_case (buf_args : list sym) (body : list stmt) : list Z :=
   | Err e, _ => [- err_code e]
   | _, Err e => [- err_code e]
   end.
+
+(* verdict of the proved-sound allocation-discipline checker on a statement list that already contains its Frees *)
+Definition exec_case (q : list stmt) : list Z := [b2z (exec_safe_b q)].
 
 Definition writes_case (body : list stmt) : list Z :=
   match get_writes body with
